@@ -104,14 +104,15 @@ def step (st : St) (j : Json) : St × List String :=
     let (w', res) := authorizeResponse st.cfg st.w t r
     let out := match res with
       | .ok (.code name cs) => s!"200 code={name} state={cs}"
-      | .ok (.next owner) => s!"200 next={owner}"
+      | .ok (.next owner n) => s!"200 next={owner} nonce={n}"
       | .err e => "err:" ++ e
       | .panic p => "panic:" ++ p
     ({ st with w := w' }, [out])
   | "code" =>
     let r : CodeReq := { subject := jStr j "subject", code := optStr j "code", verifier := optStr j "verifier",
                          clientId := optStr j "client_id", dpop := parseDPoP (jObj j "dpop") }
-    let sha := fun v => ((st.sha.find? (·.1 == v)).map (·.2)).getD ("unknown-digest:" ++ v)
+    let tbl := (jArr j "sha").map fun p => (jStr p "in", jStr p "out")
+    let sha := fun v => ((tbl.find? (·.1 == v)).map (·.2)).getD ("unknown-digest:" ++ v)
     let (w', res) := issueCode st.cfg sha st.w t r
     ({ st with w := w' }, [showResp res])
   | "introspect" =>
